@@ -123,7 +123,7 @@ func (this *DatasetManager) Create(ctx context.Context, dataset *pb.Dataset) (*D
 		return nil, err
 	}
 
-	notifC, notifId := this.notificator.Create(0)
+	notifC, notifId := this.notificator.Create(1)
 	defer func() { this.notificator.Remove(notifId) }()
 
 	proposal := &pb.DatasetManagerChange{
@@ -155,7 +155,7 @@ func (this *DatasetManager) Delete(ctx context.Context, id uuid.UUID) error {
 	ctx, cancelCtx := context.WithTimeout(ctx, 1*time.Second)
 	defer cancelCtx()
 
-	notifC, notifId := this.notificator.Create(0)
+	notifC, notifId := this.notificator.Create(1)
 	defer func() { this.notificator.Remove(notifId) }()
 
 	proposal := &pb.DatasetManagerChange{
@@ -320,7 +320,7 @@ func (this *DatasetManager) proposePartitionNodesChangeAndWaitForCommit(ctx cont
 		return err
 	}
 
-	notifC, notifId := this.notificator.Create(0)
+	notifC, notifId := this.notificator.Create(1)
 	defer func() { this.notificator.Remove(notifId) }()
 
 	proposal := &pb.DatasetManagerChange{
